@@ -119,3 +119,29 @@ class LoopSpec:
 
     def after(self, E, L, coll):
         pass
+
+
+class AbsSeqList:
+    """a list (or tuple) made of explicit head elements, an abstract run ``middle`` (AbsColl with a 'length'
+    ghost >= 0 and an element factory), and explicit tail elements — the child list Lark hands to a
+    callback whose rule contains a repetition"""
+
+    def __init__(self, head, middle, tail, pytype=list):
+        self.head = list(head)
+        self.middle = middle
+        self.tail = list(tail)
+        self.pytype = pytype
+
+    def length(self):
+        from . import sym as S
+        return S.add(len(self.head) + len(self.tail), self.middle.info["length"])
+
+    def __repr__(self):
+        return f"AbsSeqList({self.head!r} + {self.middle!r} + {self.tail!r})"
+
+
+def first_of(E, coll):
+    """the first element of a non-empty abstract collection (created once, by the collection's factory)"""
+    if "first" not in coll.info:
+        coll.info["first"] = coll.info["factory"](E, "first")
+    return coll.info["first"]
